@@ -289,7 +289,7 @@ func (g *Gen) anyChan() string {
 	if r < 8 {
 		return g.pick(chanPool)
 	}
-	return g.pick([]string{"#", "a", "#a,#b", "#a,#zz,#c", "&local", "#" + strings.Repeat("c", 40), "#sp ace", "", "#a\x07"})
+	return g.pick([]string{"#", "a", "#a,#b", "#a,#zz,#c", "&local", "#" + strings.Repeat("c", 40), "#sp ace", "", "#a\x07", "#\u00b5"})
 }
 
 func (g *Gen) anyText() string {
@@ -299,18 +299,30 @@ func (g *Gen) anyText() string {
 	return g.pick(textPool)
 }
 
-// junk produces arbitrary bytes except CR, LF and NUL (which the HTTP API
-// strips before an entry is committed; see DESIGN C15).
+// junk produces arbitrary *valid UTF-8* text without CR, LF and NUL: entries
+// reach the log through a JSON body and a protobuf string, so invalid UTF-8
+// cannot occur (the JSON decoder substitutes U+FFFD), and the HTTP API cuts
+// CR/LF/NUL (DESIGN C15).
 func (g *Gen) junk(n int) string {
-	b := make([]byte, n)
-	for i := range b {
-		c := byte(g.R.Intn(256))
-		for c == '\r' || c == '\n' || c == 0 {
-			c = byte(g.R.Intn(256))
+	var b strings.Builder
+	for i := 0; i < n; i++ {
+		var r rune
+		switch g.R.Intn(6) {
+		case 0:
+			r = rune(g.R.Intn(31) + 1) // control characters
+		case 1:
+			r = rune(0x80 + g.R.Intn(0x700))
+		case 2:
+			r = []rune{0xFFFD, 0x202E, 0x1F600, 0x2028, 0x7f, ':', ' ', ',', '#', '!', '@', '*'}[g.R.Intn(12)]
+		default:
+			r = rune(0x20 + g.R.Intn(0x5f))
 		}
-		b[i] = c
+		if r == '\r' || r == '\n' || r == 0 {
+			r = '?'
+		}
+		b.WriteRune(r)
 	}
-	return string(b)
+	return b.String()
 }
 
 // Captcha mints a token for the given purpose ("okay:join:<ts>:<chan>") with the network secret.
@@ -580,22 +592,17 @@ func (g *Gen) garbageLine(s *gsess) string {
 	case 4:
 		return g.clientLine(s) + strings.Repeat(" x", 300)
 	case 5:
-		l := []byte(g.clientLine(s))
+		l := []rune(g.clientLine(s))
 		if len(l) > 0 {
-			p := g.R.Intn(len(l))
-			c := byte(g.R.Intn(256))
-			for c == '\r' || c == '\n' || c == 0 {
-				c = byte(g.R.Intn(256))
-			}
-			l[p] = c
+			l[g.R.Intn(len(l))] = []rune(g.junk(1))[0]
 		}
 		return string(l)
 	case 6:
-		l := g.clientLine(s)
+		l := []rune(g.clientLine(s))
 		if len(l) > 1 {
-			return l[:g.R.Intn(len(l))]
+			return string(l[:g.R.Intn(len(l))])
 		}
-		return l
+		return string(l)
 	default:
 		return strings.Repeat(g.pick([]string{"A", "#", ":", " ", ",", "é"}), g.R.Intn(2100))
 	}
